@@ -20,7 +20,8 @@ CRAFTED = [
     "select * from t1 join t2 on t1.a = t2.a left join t3 on t2.b = t3.b where t1.c > 2",
     "select case a when 1 then 'x' when 2 then 'y' else 'z' end, case when b > 1 then c else d end from t",
     "select substring(a from 2), cast(b as int), c::text from t",
-    "select sum(a) over (partition by b, c order by d, e) from t",
+    "select sum(a) over (partition by b, c order by d, e) from t", "select count(*) over () from t", "select sum(a) over (order by d) from t",
+    "select sum(a) over (partition by b) from t", "select case when a then b end from t", "select case a when 1 then 2 end from t",
     "with c1 as (select a from t1), c2 as (select b from t2) select * from c1 join c2 on c1.a = c2.b",
     "select * from t1 where a in (select b from t2 where c = 1) and exists (select 1 from t3)",
     "select * from (select a from t1 where b = 1) as s where s.a > (select max(c) from t2)",
@@ -292,13 +293,18 @@ def unmodelled_nodes(root, idmap):
     return out
 
 
+NONE_VISITS = []
+
+
 def run_visit(root, idmap):
     from mindsdb_sql.planner.utils import query_traversal
     got = []
     SEEN_BY_VISITOR.clear()
+    del NONE_VISITS[:]
 
     def cb(node, is_table=False, is_target=False, parent_query=None, **kw):
         if node is None:
+            NONE_VISITS.append(1)       # the visitor was called for an EMPTY slot: there is no node to visit
             return None
         from mindsdb_sql.parser.ast.base import ASTNode
         SEEN_BY_VISITOR.add(id(node))
@@ -363,6 +369,11 @@ def run(ctx):
             ctx.violation('walker-raises:%s' % type(e).__name__, 'query_traversal raised on a well-formed tree: %s' % e,
                           {'source': source, 'tree': t_spec})
             return
+        if NONE_VISITS and source != 'generated':      # (generated trees may leave a mandatory slot empty: only trees of the parser are judged)
+            kinds_ = sorted({k_ for k_ in json.dumps(t_spec).split('"k": "')[1:] for k_ in [k_.split('"')[0]]})
+            ctx.violation('visited-nothing:%s' % ('Case' if 'Case' in kinds_ else ('WindowFunction' if 'WindowFunction' in kinds_ else '+'.join(kinds_[:3]))),
+                          'the visitor was called %d time(s) with None: an empty slot of the tree was "visited"' % len(NONE_VISITS),
+                          {'source': source, 'tree': t_spec})
         # nodes of the statement the schema does not know: they must at least have been shown to the visitor
         for pk, attr, node in (unmodelled_nodes(root, idmap) if id(root) in idmap else []):
             if id(node) not in SEEN_BY_VISITOR and (pk, attr) not in NOT_WALKED_BY_CONTRACT and attr != 'alias' \
